@@ -117,6 +117,10 @@ static const char *cls_name[NCLS] = { "LOP", "LOP+X26", "LOP+X28", "POP", "UNKNO
 #define LIM_1P   1564L            /* exactly one plain level one page */
 #define LIM_2P5  3910L            /* two and a half */
 #define LIM_INF  (1L << 30)       /* the value vbi_cache_new() sets */
+/* exactly one page of a larger size class: with a smaller page cached, free space + that page == the size needed,
+ * the condition under which _vbi_cache_put_page() reuses the victim's allocation in place */
+#define LIM_1ENH ((long)(offsetof(cache_page, data) + sizeof(((cache_page *) 0)->data.enh_lop)))
+#define LIM_1POP ((long)(offsetof(cache_page, data) + sizeof(((cache_page *) 0)->data.pop)))
 
 struct letter { int op, net, pgno, subno, mask, cls; long arg; };
 
@@ -167,7 +171,7 @@ static const struct letter A_refs[] = {
 };
 /* memory: size classes, priorities, tiny limits, eviction, put failure, one network */
 static const struct letter A_mem[] = {
-        LIMIT(LIM_1P), LIMIT(LIM_2P5), LIMIT(LIM_INF),
+        LIMIT(LIM_1P), LIMIT(LIM_2P5), LIMIT(LIM_INF), LIMIT(LIM_1ENH), LIMIT(LIM_1POP),
         PUT(0,0x100,0,CL_LOP), PUT(0,0x171,0,CL_LOP), PUT(0,0x171,0,CL_ENH), PUT(0,0x1AB,0,CL_POP),
         PUT(0,0x111,0,CL_UNK), PUT(0,0x171,1,CL_LOP),
         PUTH(0,0x171,0,CL_LOP), PUTH(0,0x100,0,CL_ENH),
